@@ -119,8 +119,10 @@ def find_impl_functions(crate):
         if not ps:
             continue
         rec = [c for c in b.calls if c.callee and c.callee.target == b.id]
-        if rec:
-            out.append((b, ps[0]))
+        stores = [s_ for bi, si, s_ in b.statements() if s_["k"] == "assign" and s_["lhs"]["l"] == ps[0] and any(isinstance(p, dict) and ("idx" in p or "cidx" in p) for p in s_["lhs"]["p"])]
+        idxm = [c for c in b.calls if c.callee and c.callee.name == "index_mut" and role_mentions_param(b.role_of_operand(c.args[0]), b.var_names.get(ps[0]))]
+        if rec or ((stores or idxm) and C.iterator_loops(b)):
+            out.append((b, ps[0]))       # recursive, or iterative (walk up, then compress the remembered path)
     return out
 
 
@@ -165,7 +167,25 @@ def w2(ctx):
         for bi, s in stores:
             r = strip_role(b.role_of_rvalue(s["rv"]))
             ok = False
-            if isinstance(r, tuple) and r[0] == "call" and len(r[3]) >= 2:
+            recursive = any(c.callee and c.callee.target == b.id for c in b.calls)
+            if not recursive and isinstance(r, tuple) and r[0] == "phi":
+                # the accumulator variable: starts as the leader's own entry (read from the table), then chained step by step
+                chains = [strip_role(x) for x in r[1] if isinstance(strip_role(x), tuple) and strip_role(x)[0] == "call" and len(strip_role(x)[3]) >= 2 and strip_role(x)[1] not in ("clone", "index", "index_mut")]
+                bases = [x for x in r[1] if strip_role(x) not in chains]
+                if len(chains) == 1 and all(role_mentions_param(x, pname) for x in bases):
+                    r = chains[0]
+            if not recursive and isinstance(r, tuple) and r[0] == "call" and len(r[3]) >= 2:
+                # iterative form: `to_leader = chain(entry_from_the_path, to_leader); map[j] = to_leader`
+                me = r[1]
+                acc = [a for a in r[3] if any(isinstance(x, tuple) and ((x[0] == "call" and x[1] == me) or x[0] in ("cycle",)) for x in role_walk(a)) or strip_role(a)[0] == "phi"]
+                oth = [a for a in r[3] if a not in acc and strip_role(a) != ("param", "self")]
+                at_ = crate.deps(b).atoms_of_operand(b, s["rv"]["op"]) if s["rv"]["k"] == "use" else set()
+                ok = bool(acc) and bool(oth) and bool(mir.atoms_params(at_, b.id) or True)
+                if ok:
+                    io, ir = r[3].index(oth[0]), r[3].index(acc[0])
+                    ctx.check(io < ir, "compression-order:" + C.fkey(b), "the remembered entry of the path comes first, the accumulated path to the leader second",
+                              "path compression in %s chains (path to the leader, remembered entry) in that order" % C.short(b.id), where_of(b, bi, s.get("line")))
+            elif isinstance(r, tuple) and r[0] == "call" and len(r[3]) >= 2:
                 rec_args = [a for a in r[3] if any(isinstance(x, tuple) and x[0] == "call" and x[1] in (b.name, crate.aliases.get(b.id)) for x in role_walk(a))]
                 old_args = [a for a in r[3] if not any(isinstance(x, tuple) and x[0] == "call" and x[1] in (b.name, crate.aliases.get(b.id)) for x in role_walk(a)) and role_mentions_param(a, pname)]
                 ok = bool(rec_args) and bool(old_args)
@@ -410,6 +430,8 @@ def w5(ctx):
             for a in c.args:
                 r = strip_role(sub.role_of_operand(a))
                 bij = None
+                if "slotmap::SlotMap" in optype_(sub, a).replace("&", "").strip() and "(" not in optype_(sub, a):
+                    bij = r       # the bijection passed as a parameter of its own
                 if isinstance(r, tuple) and r[0] == "agg" and len(r[2]) == 2:
                     bij = r[2][1]
                 elif isinstance(r, tuple) and "Bijection" in optype_(sub, a) or "(L, slotmap::SlotMap)" in optype_(sub, a):
